@@ -253,6 +253,20 @@ def run(ctx: Context) -> None:
             ctx.add("R5", i.key.split("/", 2)[2], i.ok, i.where, i.detail)
     ctx.floor("R5", "child runner id registrations", ctx.count("R5"), 3)
     r6_purge(ctx)
+    # R7: what the path engine takes as given about the backends it calls: a routed batch reaches the queue entire (C08/R2),
+    # and a backend write repeated by a re-executed invocation does not fail where its first execution succeeded (C16/R13)
+    from . import c08, c16
+    from .. import sqlmini
+
+    ctx.rule("R7", "shared: routing adds every id of a batch to the queue exactly once (C08/R2); no SQLite INSERT fails on a key stored by an earlier execution of the same invocation (C16/R13)")
+    sites = sqlmini.sites(ctx.repo)
+    for mod, fn in ((c08, c08.r2), (c16, c16.r13)):
+        subx = Context(mod.__name__.split(".")[-1].upper(), ctx.repo, ctx.tier, ctx.seed)
+        subx._resolver = ctx._resolver
+        fn(subx, sites)
+        for i in subx.instances:
+            ctx.add("R7", i.key.split("/", 2)[2], i.ok, i.where, i.detail)
+    ctx.floor("R7", "shared obligations", ctx.count("R7"), 30)
     ctx.exhaustive = False
     ctx.not_decided += [
         "liveness ('reaches a final status as long as some runner stays alive'): needs fairness",
